@@ -101,7 +101,7 @@ PROPS = {
                 slices=['session_cache'], monitors=['c17'],
                 pending=['cache_transparent lifted to whole call sequences incl. eval (simulation)']),
     'C18': dict(obligations=lambda: P('SqProps.C18') + TIE_LEX + TIE_TOK,
-                slices=['names'], monitors=['c18'],
+                slices=['names', 'session_cache', 'name_lookup'], monitors=['c18'],
                 pending=['tree_names_from_tokens (needs parser soundness)']),
     'C19': dict(obligations=lambda: P('SqProps.C19'),
                 slices=['rand'], monitors=['c19'],
